@@ -19,7 +19,7 @@ CleanToks(t, acc) ==
 Norm(raw) == CleanToks(Tokens(raw), <<>>)       \* absolute path = component sequence; <<>> is the root
 
 PathStr(p) == IF p = <<>> THEN "/" ELSE "/" \o JoinBy(p, "/")
-DirStr(p)  == PathStr(p) \o "/"                  \* how nfpm spells a directory destination
+DirStr(p)  == IF p = <<>> THEN "/" ELSE PathStr(p) \o "/"   \* how nfpm spells a directory destination (the root: "/")
 NormFileStr(raw) == PathStr(Norm(raw))
 NormDirStr(raw)  == DirStr(Norm(raw))
 
